@@ -253,13 +253,65 @@ def t_from_bytes(pyx):
 # --------------------------------------------------------------------------- Row.as_bytes after packb / time_ns
 
 
-def t_as_bytes(row):
+LEAN_WORDS = set("""instance end at from have show fun let open where with then do theorem def namespace section variable universe class
+structure deriving in match if else mutual private protected export local prefix infix notation macro syntax by this example abbrev
+inductive axiom opaque import return for unless try catch finally calc suffices obtain exact using Type Prop Sort""".split())
+
+
+def lname(name):
+    """a Python local as a Lean binder"""
+    return name + "_" if name in LEAN_WORDS else name
+
+
+def imported_names(row):
+    """bound name -> `module.name` for `from M import N [as A]`, bound name -> `M` for `import M [as A]` (module level)"""
+    out = {}
+    for node in (row.tree.body if row.tree is not None else []):
+        if isinstance(node, ast.ImportFrom) and node.module and node.level == 0:
+            for a in node.names:
+                out[a.asname or a.name] = "%s.%s" % (node.module, a.name)
+        elif isinstance(node, ast.Import):
+            for a in node.names:
+                out[a.asname or a.name.split(".")[0]] = a.name if a.asname else a.name.split(".")[0]
+    return out
+
+
+def cache_attr(row):
+    """the attribute of `self` that `Row.nbytes` keeps the size in (read and written there)"""
+    try:
+        fn = row.func("nbytes", "Row")
+    except KeyError:
+        return None
+    names = {x.attr for x in ast.walk(fn) if isinstance(x, ast.Attribute) and isinstance(x.value, ast.Name) and x.value.id == "self"
+             and x.attr != "as_bytes"}
+    return names.pop() if len(names) == 1 else None
+
+
+def t_as_bytes(row, whole=False):
+    """`whole=False`: after `packb` / `time_ns` (payload and clock are parameters).  `whole=True`: the `packb` call is part of
+    the translation -- which serialiser the name is bound to (the module-level import), that its argument is `tuple(self)`, its
+    `option=` flags and whether it has a `default=`; the argument is the row's items, and the size `nbytes` keeps on the
+    object (`cached`) is an argument too: a read of it inside `as_bytes` shows in the translation."""
     fn = row.func("as_bytes", "Row")
     S = {"payload": None, "ts": None, "chains": {}}
+    imports = imported_names(row)
+    cattr = cache_attr(row)
+
+    def is_cached(n):
+        return whole and cattr is not None and isinstance(n, ast.Attribute) and isinstance(n.value, ast.Name) and n.value.id == "self" \
+            and n.attr == cattr and isinstance(n.ctx, ast.Load)
 
     def hook(n, go):
         if _call(n, "len", 1) and isinstance(n.args[0], ast.Name) and n.args[0].id == S["payload"]:
             return "(List.length %s)" % n.args[0].id
+        if isinstance(n, ast.BoolOp) and isinstance(n.op, ast.Or) and len(n.values) == 2 and is_cached(n.values[0]):
+            return "(RowGlue.orSize cached %s)" % go(n.values[1])
+        if isinstance(n, ast.IfExp) and is_cached(n.body) and isinstance(n.test, ast.Compare) and len(n.test.ops) == 1 \
+                and isinstance(n.test.ops[0], ast.IsNot) and is_cached(n.test.left) and isinstance(n.test.comparators[0], ast.Constant) \
+                and n.test.comparators[0].value is None:
+            return "(cached.getD %s)" % go(n.orelse)
+        if isinstance(n, ast.Attribute) and isinstance(n.value, ast.Name) and n.value.id == "self" and isinstance(n.ctx, ast.Load):
+            raise Untranslatable("read of self.%s" % n.attr)
         return None
 
     def raise_(s, ex):
@@ -331,6 +383,34 @@ def t_as_bytes(row):
                 if not (v.args and _u(v.args[0]) == "tuple(self)" and len(v.args) == 1 and {kw.arg for kw in v.keywords} <= {"option", "default"}):
                     raise Untranslatable("packb arguments %s" % _u(v)[:60])
                 S["payload"], param = name, "payload"
+                if whole:
+                    # which function the name is bound to: the module-level import
+                    if isinstance(f, ast.Name):
+                        ser = imports.get(f.id)
+                    else:
+                        ser = "%s.%s" % (imports.get(_u(f.value), _u(f.value)), f.attr) if isinstance(f.value, ast.Name) else None
+                    if ser is None:
+                        raise Untranslatable("what is %s bound to" % _u(f)[:30])
+                    opts, has_default = [], False
+                    for kw in v.keywords:
+                        if kw.arg == "option":
+                            def names(e):
+                                if isinstance(e, ast.BinOp) and isinstance(e.op, ast.BitOr):
+                                    return names(e.left) + names(e.right)
+                                if isinstance(e, (ast.Name, ast.Attribute)):
+                                    return [_u(e).split(".")[-1]]
+                                raise Untranslatable("packb option %s" % _u(e)[:30])
+                            opts = names(kw.value)
+                        else:
+                            has_default = not (isinstance(kw.value, ast.Constant) and kw.value.value is None)
+                    saved = ex.typestate()
+                    ex.bound.add(name)
+                    try:
+                        body = st.block(rest, k, depth + 1)
+                    finally:
+                        ex.restore(saved)
+                    return ("match (RowGlue.callPackb %s (RowGlue.tupleOf self) [%s] %s) with\n%s| none => (Except.error EncErr.codec)\n%s| some %s =>\n%s%s%s"
+                            % (lean_str(ser), ", ".join(lean_str(o) for o in opts), "true" if has_default else "false", pad, pad, name, pad, st.ind, body))
             elif fname == "time_ns" and not v.args and not v.keywords:
                 S["ts"], param = name, "ts"
             if param is not None:
@@ -347,6 +427,10 @@ def t_as_bytes(row):
     body = pystmt.Stmts(ex, ret=ret, raise_=raise_, stmt_hook=stmt_hook).block(_nodoc(fn.body), "FALLOFF", 1)
     if "FALLOFF" in body or S["payload"] is None or S["ts"] is None:
         raise Untranslatable("as_bytes: packb / time_ns / return not found")
+    if whole:
+        return ("/-- orso/row.py `Row.as_bytes`, the whole property body statement by statement: `self` = the row's items, `ts` = `time.time_ns()`,\n"
+                "`cached` = the size `Row.nbytes` keeps on the object (`None` on a fresh one), `selfHasDict` as below -/\n"
+                "def as_bytes (selfHasDict : Bool) (cached : Option Nat) (ts : Nat) (self : List PyVal) : Except EncErr RowBytes.Bytes :=\n  %s\n" % body)
     return ("/-- orso/row.py `Row.as_bytes` after `packb` (= `payload`) and `time.time_ns()` (= `ts`), statement by statement;\n"
             "`selfHasDict`: does the row object have a `__dict__` (false for instances of `Row` itself, `__slots__ = ()`) -/\n"
             "def as_bytes_frame (selfHasDict : Bool) (ts : Nat) (payload : RowBytes.Bytes) : Except EncErr RowBytes.Bytes :=\n  %s\n" % body)
@@ -469,6 +553,149 @@ def t_glue(row):
             "def from_bytes (data : RowBytes.Bytes) : RowGlue.Out :=\n  %s\n" % body)
 
 
+# --------------------------------------------------------------------------- Row.nbytes (the cached size: state of the row object)
+
+
+def t_nbytes(row):
+    """`Row.nbytes` statement by statement -> `RowGlue.SizeOut` (what the call ends in, the cached size afterwards).  Statements:
+    `if <test>: … [else: …]`, `self.A = <expr>`, `x = <expr>`, `return <expr>`; expressions: `self.A`, `len(self.as_bytes)`,
+    integer literals, module-level integer constants, locals, `None`, `+`; tests: `e is None`, `e is not None`, `e == None`,
+    `not e`, `e` (truthiness: `None` and `0` are false)."""
+    fn = row.func("nbytes", "Row")
+    if [a.arg for a in fn.args.args] != ["self"] or fn.args.vararg or fn.args.kwarg or fn.args.kwonlyargs or fn.decorator_list:
+        raise Untranslatable("nbytes signature")
+    attr = cache_attr(row)
+    if attr is None:
+        raise Untranslatable("nbytes: which attribute holds the size")
+    consts = module_ints(row)
+    ind = "  "
+
+    def is_attr(n):
+        return isinstance(n, ast.Attribute) and isinstance(n.value, ast.Name) and n.value.id == "self" and n.attr == attr
+
+    def expr(n, local):
+        if is_attr(n):
+            return "(Except.ok cached)"
+        if _call(n, "len", 1) and _u(n.args[0]) == "self.as_bytes":
+            return "(RowGlue.lenOf as_bytes)"
+        if _int_const(n):
+            return "(Except.ok (some %d))" % n.value
+        if isinstance(n, ast.Constant) and n.value is None:
+            return "(Except.ok none)"
+        if isinstance(n, ast.Name) and n.id in local:
+            return "(Except.ok %s)" % lname(n.id)
+        if isinstance(n, ast.Name) and n.id in consts:
+            return "(Except.ok (some %d))" % consts[n.id]
+        if isinstance(n, ast.BinOp) and isinstance(n.op, ast.Add):
+            return "(RowGlue.addSize %s %s)" % (expr(n.left, local), expr(n.right, local))
+        raise Untranslatable("nbytes expression %s" % _u(n)[:40])
+
+    def opt(n, local):
+        """an expression that cannot raise, as an `Option Nat`"""
+        if is_attr(n):
+            return "cached"
+        if isinstance(n, ast.Name) and n.id in local:
+            return lname(n.id)
+        raise Untranslatable("nbytes test on %s" % _u(n)[:40])
+
+    def test(n, local):
+        if isinstance(n, ast.Compare) and len(n.ops) == 1 and isinstance(n.comparators[0], ast.Constant) and n.comparators[0].value is None:
+            if isinstance(n.ops[0], (ast.Is, ast.Eq)):
+                return "(%s = none)" % opt(n.left, local)
+            if isinstance(n.ops[0], (ast.IsNot, ast.NotEq)):
+                return "(%s ≠ none)" % opt(n.left, local)
+        if isinstance(n, ast.UnaryOp) and isinstance(n.op, ast.Not):
+            return "(RowGlue.truthy %s = false)" % opt(n.operand, local)
+        return "(RowGlue.truthy %s = true)" % opt(n, local)
+
+    def block(stmts, depth, local):
+        pad = ind * depth
+        stmts = _nodoc(stmts)
+        if not stmts:
+            return "(Except.ok none, cached)"  # falls off its end: returns None
+        s, rest = stmts[0], stmts[1:]
+        if isinstance(s, ast.Pass):
+            return block(rest, depth, local)
+        if isinstance(s, ast.If):
+            return "if %s then\n%s%s%s\n%selse\n%s%s%s" % (test(s.test, local), pad, ind, block(list(s.body) + rest, depth + 1, local), pad, pad, ind,
+                                                           block(list(s.orelse) + rest, depth + 1, local))
+        if isinstance(s, ast.Return):
+            if s.value is None:
+                return "(Except.ok none, cached)"
+            return "(RowGlue.bindSize %s cached (fun v => (Except.ok v, cached)))" % expr(s.value, local)
+        if isinstance(s, ast.Assign) and len(s.targets) == 1:
+            t = s.targets[0]
+            if is_attr(t):
+                return ("(RowGlue.bindSize %s cached (fun v => RowGlue.storeCached selfHasDict cached v (fun cached =>\n%s%s%s)))"
+                        % (expr(s.value, local), pad, ind, block(rest, depth + 1, local)))
+            if isinstance(t, ast.Name) and t.id not in ("self", "cached", "as_bytes", "selfHasDict", "v"):
+                return "(RowGlue.bindSize %s cached (fun %s =>\n%s%s%s))" % (expr(s.value, local), lname(t.id), pad, ind, block(rest, depth + 1, local | {t.id}))
+        raise Untranslatable("nbytes statement %s" % _u(s)[:50])
+
+    body = block(fn.body, 1, frozenset())
+    return ("/-- orso/row.py `Row.nbytes` statement by statement: `cached` = `self.%s` before the call, `as_bytes` = what evaluating\n"
+            "`self.as_bytes` ends in; the result is what the call ends in and `self.%s` afterwards -/\n"
+            "def nbytes (selfHasDict : Bool) (cached : Option Nat) (as_bytes : Except EncErr RowBytes.Bytes) : RowGlue.SizeOut :=\n  %s\n" % (attr, attr, body))
+
+
+# --------------------------------------------------------------------------- Row.__new__ (tuple path and dict path)
+
+
+def t_row_new(row):
+    """`Row.__new__` statement by statement -> `Except String (List PyVal)`: `if isinstance(data, dict):`, `if type(data) is not dict:`,
+    `data = dict(data)`, `data = extract_dict_columns(data, cls._fields)`, `x = super().__new__(cls, data)`, `return x`."""
+    fn = row.func("__new__", "Row")
+    if [a.arg for a in fn.args.args] != ["cls", "data"] or fn.args.vararg or fn.args.kwarg or fn.args.kwonlyargs or fn.args.defaults:
+        raise Untranslatable("__new__ signature")
+    ind = "  "
+
+    def is_tuple_new(v):
+        return isinstance(v, ast.Call) and _u(v.func) in ("super().__new__", "tuple.__new__") and not v.keywords and [_u(a) for a in v.args] == ["cls", "data"]
+
+    def test(n):
+        if _call(n, "isinstance", 2) and _u(n.args[0]) == "data" and _u(n.args[1]) == "dict":
+            return "(RowGlue.isDict data = true)"
+        if isinstance(n, ast.Compare) and len(n.ops) == 1 and _u(n.left) == "type(data)" and _u(n.comparators[0]) == "dict":
+            if isinstance(n.ops[0], (ast.Is, ast.Eq)):
+                return "(RowGlue.isExactDict data = true)"
+            if isinstance(n.ops[0], (ast.IsNot, ast.NotEq)):
+                return "(¬ (RowGlue.isExactDict data = true))"
+        if isinstance(n, ast.UnaryOp) and isinstance(n.op, ast.Not):
+            return "(¬ %s)" % test(n.operand)
+        raise Untranslatable("__new__ test %s" % _u(n)[:40])
+
+    def block(stmts, depth, made):
+        pad = ind * depth
+        stmts = _nodoc(stmts)
+        if not stmts:
+            raise Untranslatable("__new__ can fall off its end")
+        s, rest = stmts[0], stmts[1:]
+        if isinstance(s, ast.Pass):
+            return block(rest, depth, made)
+        if isinstance(s, ast.If):
+            return "if %s then\n%s%s%s\n%selse\n%s%s%s" % (test(s.test), pad, ind, block(list(s.body) + rest, depth + 1, made), pad, pad, ind,
+                                                           block(list(s.orelse) + rest, depth + 1, made))
+        if isinstance(s, ast.Return) and s.value is not None:
+            if isinstance(s.value, ast.Name) and s.value.id in made:
+                return "(Except.ok %s)" % lname(s.value.id)
+            if is_tuple_new(s.value):
+                return "(Except.ok (RowGlue.tupleNew data))"
+        if isinstance(s, ast.Assign) and len(s.targets) == 1 and isinstance(s.targets[0], ast.Name):
+            name, v = s.targets[0].id, s.value
+            if name == "data" and _call(v, "dict", 1) and _u(v.args[0]) == "data":
+                return "let data := (RowGlue.dictOf data)\n%s%s" % (pad, block(rest, depth, made))
+            if name == "data" and _call(v, "extract_dict_columns", 2) and _u(v.args[0]) == "data" and _u(v.args[1]) == "cls._fields":
+                return "(RowGlue.bindNew (RowGlue.extract_dict_columns data fields) (fun data =>\n%s%s%s))" % (pad, ind, block(rest, depth + 1, made))
+            if name not in ("data", "cls", "fields") and is_tuple_new(v):
+                return "let %s := (RowGlue.tupleNew data)\n%s%s" % (lname(name), pad, block(rest, depth, made | {name}))
+        raise Untranslatable("__new__ statement %s" % _u(s)[:50])
+
+    body = block(fn.body, 1, frozenset())
+    return ("/-- orso/row.py `Row.__new__` statement by statement: `fields` = `cls._fields` (`None` on the class `Row` itself), `data` = the\n"
+            "argument (a tuple of items, or a dictionary); the result is the items of the new row, or the exception -/\n"
+            "def row_new (fields : Option (List String)) (data : RowGlue.NewArg) : Except String (List PyVal) :=\n  %s\n" % body)
+
+
 def _pinned():
     try:
         return json.load(open(PINNED_FILE))
@@ -480,7 +707,8 @@ def generate(o):
     row = Src("orso/row.py")
     pyx = Src("orso/compute/compiled.pyx")
     pinned = _pinned()
-    table = (("from_bytes_cython", lambda: t_from_bytes(pyx)), ("as_bytes_frame", lambda: t_as_bytes(row)), ("from_bytes", lambda: t_glue(row)))
+    table = (("from_bytes_cython", lambda: t_from_bytes(pyx)), ("as_bytes_frame", lambda: t_as_bytes(row)), ("from_bytes", lambda: t_glue(row)),
+             ("as_bytes", lambda: t_as_bytes(row, whole=True)), ("nbytes", lambda: t_nbytes(row)), ("row_new", lambda: t_row_new(row)))
     fresh = {}
     for key, fn in table:
         fresh[key] = o.item("c01.fn." + key, fn, pinned.get(key, "-- %s: not translated\n" % key))
